@@ -1,12 +1,638 @@
 /-
-  C06 — theorems about the screen differ model (`Ptk.Model.C06`).
+  C06 — incremental screen updates leave the terminal identical to a full redraw.
+
+  Theorems over the model `Ptk.Model.C06` (the differ `diff`, the renderer state `RState`, the
+  VT100 terminal model `Term` / `exec`), for screens whose cells hold one printable width-1
+  character (`Narrow`; wide and multi-character cells are covered by the correspondence and the
+  oracle only), with no row written at or below `Screen.height` (`WF`):
+
+    diff_confined, no_scroll, diff_correct, diff_done            one call of `_output_screen_diff`
+    render_seq, render_seq_last, incremental_eq_scratch           any sequence of render / done / erase
+    done_full_height_scrolls, wf_needed                           the stated exception; why `WF`
+
+  Lemmas: `Ptk.Props.C06Lemmas` (pieces of the differ), `Ptk.Props.C06Diff` (`diff_master`).
 -/
-import Ptk.Model.C06
+import Ptk.Props.C06Diff
 namespace Ptk.C06
 open Ptk.Py
 
-theorem exec_append (cw : Char → Nat) (t : Term) (a b : List Cmd) :
-    exec cw t (a ++ b) = exec cw (exec cw t a) b := by
-  simp [exec, List.foldl_append]
+variable (cw : Char → Nat)
 
+/-- hypotheses shared by the theorems about one call of the differ -/
+structure DiffOk (e : Env) (s : Screen) (pos : Point) (prev : Option Screen) (last : Option Nat)
+    (isDone : Bool) (pw : Nat) (T : Term) : Prop where
+  /-- a space is one column wide (runtime `wcwidth`) -/
+  space : cw ' ' = 1
+  /-- the default char's style has no colour / underline … (it is never counted as content) -/
+  hdef : (e.attrsOf 1).hasStyle = false
+  narrow : Narrow cw s
+  wf : WF s
+  /-- cursor belief, SGR belief, autowrap still off in full-screen mode -/
+  pre : Pre e T pos last prev
+  /-- on the incremental path the terminal shows the previous screen -/
+  shown : ∀ ps, prev = some ps → (isDone || pw != e.w) = false → Shows e T ps ∧ NoCont T ∧ WF ps
+  /-- the rows to draw fit between the origin and the bottom of the terminal -/
+  fit : min (max s.height (prevHeight prev)) e.h ≤ T.h
+  rows : T.h ≤ e.h
+  /-- so does the final cursor row -/
+  tgt : (if isDone then min s.height e.h else s.cursor.y) < T.h
+
+/-- **diff_confined** — every cell a printable character is written to lies in a row
+    `< min(max(new.height, prev.height), rows)` and a column `< columns`. -/
+theorem diff_confined (e : Env) (s : Screen) (pos : Point) (prev : Option Screen) (last : Option Nat)
+    (isDone : Bool) (pw : Nat) (T : Term) (ok : DiffOk cw e s pos prev last isDone pw T) :
+    ∀ p ∈ (exec cw T (diff e s pos prev last isDone pw).cmds).log,
+      p ∈ T.log ∨ (p.1 < min (max s.height (prevHeight prev)) e.h ∧ p.2 < e.w) :=
+  (diff_master cw e s pos prev last isDone pw T ok.space ok.hdef ok.narrow ok.wf ok.pre ok.shown ok.fit
+    ok.rows ok.tgt).1.2.2.2.2.2.2.2.2.1
+
+/-- **no_scroll** — executing the differ's output never scrolls the terminal and never asks the
+    cursor to go above the origin row or left of column 0; the geometry is unchanged. -/
+theorem no_scroll (e : Env) (s : Screen) (pos : Point) (prev : Option Screen) (last : Option Nat)
+    (isDone : Bool) (pw : Nat) (T : Term) (ok : DiffOk cw e s pos prev last isDone pw T) :
+    (exec cw T (diff e s pos prev last isDone pw).cmds).scrolled = T.scrolled ∧
+    (exec cw T (diff e s pos prev last isDone pw).cmds).oob = T.oob ∧
+    (exec cw T (diff e s pos prev last isDone pw).cmds).h = T.h ∧
+    (exec cw T (diff e s pos prev last isDone pw).cmds).top = T.top := by
+  have h := (diff_master cw e s pos prev last isDone pw T ok.space ok.hdef ok.narrow ok.wf ok.pre ok.shown
+    ok.fit ok.rows ok.tgt).1.2.2.2.2.2.2.2.2.2.1
+  exact ⟨h.scrolled, h.oob, h.h, h.top⟩
+
+/-- what a terminal looks like after screen `s` has been rendered (not `done`) -/
+structure Rendered (e : Env) (T : Term) (s : Screen) : Prop where
+  shows : Shows e T s
+  row : T.row = s.cursor.y
+  col : T.col = min s.cursor.x (e.w - 1)
+  sgr : T.sgr = Attrs.dflt
+  autowrap : T.autowrap = !e.fullScreen
+  visible : T.visible = s.showCursor
+  nocont : NoCont T
+  w : T.w = e.w
+
+/-- **diff_correct** — if the terminal shows the previous screen (or anything at all, when the
+    differ repaints: first render, width change), then after executing the differ's output it shows
+    the new screen, the cursor is on the screen's cursor position, attributes are reset, the cursor
+    is visible iff `show_cursor`, autowrap is on iff not full-screen. -/
+theorem diff_correct (e : Env) (s : Screen) (pos : Point) (prev : Option Screen) (last : Option Nat)
+    (pw : Nat) (T : Term) (ok : DiffOk cw e s pos prev last false pw T) :
+    Rendered e (exec cw T (diff e s pos prev last false pw).cmds) s ∧
+    (diff e s pos prev last false pw).pos = s.cursor ∧ (diff e s pos prev last false pw).last = none := by
+  obtain ⟨⟨c1, _, c3, c4, c5, c6, c7, c8, _, c10, c11⟩, hp, hl⟩ :=
+    diff_master cw e s pos prev last false pw T ok.space ok.hdef ok.narrow ok.wf ok.pre ok.shown ok.fit
+      ok.rows ok.tgt
+  refine ⟨⟨?_, by simpa using c3, by simpa using c4, c6, by simpa using c7, c8, c11, c5⟩,
+    by simpa using hp, hl⟩
+  intro y x hy hx
+  rw [c10.h] at hy
+  exact c1 y x hy hx (by intro h; cases h)
+
+/-- **diff_done** — after the final (`is_done`) render the output rows show the screen, everything
+    below is erased, the cursor is on column 0 of the line below the output, attributes are reset
+    and autowrap is restored.  (Hypothesis `ok.tgt`: that line exists, i.e. the output does not fill
+    the terminal; otherwise the terminal scrolls by one line, which is the documented exception.) -/
+theorem diff_done (e : Env) (s : Screen) (pos : Point) (prev : Option Screen) (last : Option Nat)
+    (pw : Nat) (T : Term) (ok : DiffOk cw e s pos prev last true pw T) :
+    (∀ y x, y < min s.height e.h → x < e.w →
+      ((exec cw T (diff e s pos prev last true pw).cmds).cells y x).norm =
+        (tcellOf e.attrsOf (cellAt (s.row y) x)).norm) ∧
+    (∀ y x, min s.height e.h ≤ y →
+      (exec cw T (diff e s pos prev last true pw).cmds).cells y x = TCell.blank) ∧
+    (exec cw T (diff e s pos prev last true pw).cmds).row = min s.height e.h ∧
+    (exec cw T (diff e s pos prev last true pw).cmds).col = 0 ∧
+    (exec cw T (diff e s pos prev last true pw).cmds).sgr = Attrs.dflt ∧
+    (exec cw T (diff e s pos prev last true pw).cmds).autowrap = true := by
+  obtain ⟨⟨c1, c2, c3, c4, _, c6, c7, _, _, c10, _⟩, _, _⟩ :=
+    diff_master cw e s pos prev last true pw T ok.space ok.hdef ok.narrow ok.wf ok.pre ok.shown ok.fit
+      ok.rows ok.tgt
+  have ht := ok.tgt
+  simp only [if_true] at ht c3 c4
+  refine ⟨?_, c2 rfl, c3, by simpa using c4, c6, by simpa using c7⟩
+  intro y x hy hx
+  exact c1 y x (by omega) hx (fun _ => hy)
+
+/-! ### sequences of renders -/
+
+/-- the operations of a renderer at a fixed terminal size -/
+inductive ROp
+  /-- `render(app, layout)` where the layout produces `s` -/
+  | render (s : Screen) (mouse : Bool) (key shape : Nat)
+  /-- `render(app, layout, is_done=True)`; the next prompt starts on the cursor line -/
+  | finish (s : Screen) (mouse : Bool) (key shape : Nat)
+  /-- `erase(leave_alternate_screen)` -/
+  | erase (leaveAlt : Bool)
+  /-- `clear()`: erase, then erase the whole display and home the cursor -/
+  | clear
+
+/-- one operation: new renderer state, and the terminal after executing the emitted calls
+    (after a `done` render the origin moves to the cursor row: `Term.rebase`) -/
+def stepR (e : Env) (R : RState) (T : Term) : ROp → RState × Term
+  | .render s m k sh => ((R.render e s false m k sh).1, exec cw T (R.render e s false m k sh).2)
+  | .finish s m k sh => ((R.render e s true m k sh).1, (exec cw T (R.render e s true m k sh).2).rebase)
+  | .erase la => ((R.erase la).1, exec cw T (R.erase la).2)
+  | .clear => (R.clear.1, exec cw T R.clear.2)
+
+def runR (e : Env) : RState → Term → List ROp → RState × Term
+  | R, T, [] => (R, T)
+  | R, T, op :: ops => runR e (stepR cw e R T op).1 (stepR cw e R T op).2 ops
+
+/-- what the layout must guarantee for an operation in the current state: width-1 cells, no row
+    written below `height`, cursor inside the terminal, the drawn rows fit below the origin -/
+def OpOk (e : Env) (R : RState) (T : Term) : ROp → Prop
+  | .render s _ _ _ => Narrow cw s ∧ WF s ∧ s.cursor.x < e.w ∧ s.cursor.y < T.h ∧
+      min (max s.height (prevHeight R.lastScreen)) e.h ≤ T.h
+  | .finish s _ _ _ => Narrow cw s ∧ WF s ∧ min s.height e.h < T.h ∧
+      min (max s.height (prevHeight R.lastScreen)) e.h ≤ T.h
+  | .erase _ => True
+  | .clear => True
+
+def RunOk (e : Env) : RState → Term → List ROp → Prop
+  | _, _, [] => True
+  | R, T, op :: ops => OpOk cw e R T op ∧ RunOk e (stepR cw e R T op).1 (stepR cw e R T op).2 ops
+
+/-- the renderer's state agrees with the terminal: the terminal shows `_last_screen`, its cursor is at
+    `_cursor_pos`, attributes are reset -/
+structure RInv (e : Env) (R : RState) (T : Term) : Prop where
+  w : T.w = e.w
+  wpos : 0 < e.w
+  row : T.row = R.pos.y
+  col : T.col = R.pos.x
+  posx : R.pos.x < e.w
+  rowlt : T.row < T.h
+  /-- the rows above the origin plus the owned rows are the terminal's rows (at most `size.rows`) -/
+  tot : T.top + T.h ≤ e.h
+  sgr : T.sgr = Attrs.dflt
+  last : R.lastStyle = none
+  aw : e.fullScreen = true → R.lastScreen.isSome = true → T.autowrap = false
+  shown : ∀ ps, R.lastScreen = some ps →
+    Shows e T ps ∧ NoCont T ∧ WF ps ∧ R.lastSize = some (e.h, e.w)
+
+/-- calls without effect on the terminal model -/
+def Cmd.inert : Cmd → Bool
+  | .writeRaw _ | .enterAlt | .quitAlt | .enableMouse | .disableMouse | .enablePaste | .disablePaste
+  | .resetCkm | .resetCursorShape | .setCursorShape _ | .scrollToPrompt | .flush => true
+  | _ => false
+
+theorem exec_inert (T : Term) : ∀ cs : List Cmd, (∀ c ∈ cs, c.inert = true) → exec cw T cs = T := by
+  intro cs
+  induction cs with
+  | nil => intro _; rfl
+  | cons c cs ih =>
+    intro h
+    have hc := h c (by simp)
+    rw [exec_cons]
+    have : execCmd cw T c = T := by cases c <;> simp [Cmd.inert] at hc <;> rfl
+    rw [this]
+    exact ih (fun c' hc' => h c' (by simp [hc']))
+
+/-- the calls of `Renderer.reset` only make the cursor visible -/
+theorem exec_reset (R : RState) (sc la : Bool) (T : Term) :
+    exec cw T (R.reset sc la).2 = { T with visible := true } := by
+  unfold RState.reset
+  simp only []
+  rw [exec_append, exec_append, exec_append, exec_append]
+  rw [exec_inert cw T _ (by intro c hc; split at hc <;> simp at hc; subst hc; rfl)]
+  rw [exec_inert cw T _ (by intro c hc; split at hc <;> simp at hc; subst hc; rfl)]
+  rw [exec_inert cw T _ (by intro c hc; split at hc <;> simp at hc; subst hc; rfl)]
+  rw [exec_inert cw T _ (by intro c hc; split at hc <;> simp at hc; subst hc; rfl)]
+  rfl
+
+theorem prevFor_cases (e : Env) (R : RState) (key : Nat) :
+    R.prevFor e key = none ∨ R.prevFor e key = R.lastScreen := by
+  unfold RState.prevFor; split
+  · exact Or.inl rfl
+  · split
+    · exact Or.inl rfl
+    · exact Or.inr rfl
+
+theorem render_cmds (e : Env) (R : RState) (s : Screen) (isDone m : Bool) (k sh : Nat) :
+    ∃ a b : List Cmd, (∀ c ∈ a, c.inert = true) ∧ (∀ c ∈ b, c.inert = true) ∧
+      (R.render e s isDone m k sh).2 =
+        a ++ ((diff e s R.pos (R.prevFor e k) R.lastStyle isDone R.prevWidth).cmds ++
+          (b ++ if isDone then
+            ((R.rendered e s m k sh (diff e s R.pos (R.prevFor e k) R.lastStyle isDone R.prevWidth)).reset
+              false true).2 else [])) := by
+  refine ⟨(if e.fullScreen && !R.inAlt then [Cmd.enterAlt] else []) ++
+      ((if !R.paste then [Cmd.enablePaste] else []) ++
+      ((if !R.ckm then [Cmd.resetCkm] else []) ++
+      (if m && !R.mouse then [Cmd.enableMouse] else if !m && R.mouse then [Cmd.disableMouse] else []))),
+    (if R.shape != some sh then [Cmd.setCursorShape sh] else []) ++ [Cmd.flush], ?_, ?_, ?_⟩
+  · intro c hc
+    simp only [List.mem_append] at hc
+    rcases hc with hc | hc | hc | hc
+    · split at hc <;> simp at hc; subst hc; rfl
+    · split at hc <;> simp at hc; subst hc; rfl
+    · split at hc <;> simp at hc; subst hc; rfl
+    · split at hc
+      · simp at hc; subst hc; rfl
+      · split at hc <;> simp at hc; subst hc; rfl
+  · intro c hc
+    simp only [List.mem_append] at hc
+    rcases hc with hc | hc
+    · split at hc <;> simp at hc; subst hc; rfl
+    · simp at hc; subst hc; rfl
+  · unfold RState.render
+    cases isDone <;> simp [List.append_assoc]
+
+theorem prevHeight_prevFor (e : Env) (R : RState) (k : Nat) :
+    prevHeight (R.prevFor e k) ≤ prevHeight R.lastScreen := by
+  rcases prevFor_cases e R k with h | h <;> rw [h] <;> simp [prevHeight]
+
+/-- the renderer invariant provides the differ's preconditions -/
+theorem diffOk_of_inv (e : Env) (R : RState) (T : Term) (s : Screen) (isDone : Bool) (k : Nat)
+    (h1 : cw ' ' = 1) (hdef : (e.attrsOf 1).hasStyle = false) (inv : RInv e R T)
+    (hn : Narrow cw s) (wfs : WF s)
+    (hfit : min (max s.height (prevHeight R.lastScreen)) e.h ≤ T.h)
+    (htgt : (if isDone then min s.height e.h else s.cursor.y) < T.h) :
+    DiffOk cw e s R.pos (R.prevFor e k) R.lastStyle isDone R.prevWidth T := by
+  refine ⟨h1, hdef, hn, wfs, ⟨inv.w, inv.wpos, inv.row, ?_, inv.rowlt, ?_, ?_⟩, ?_, ?_, (by have := inv.tot; omega), htgt⟩
+  · rw [inv.col]; have := inv.posx; omega
+  · intro hf hs
+    apply inv.aw hf
+    rcases prevFor_cases e R k with h | h
+    · rw [h] at hs; cases hs
+    · rw [h] at hs; exact hs
+  · rw [inv.last]; exact inv.sgr
+  · intro ps hps _
+    rcases prevFor_cases e R k with h | h
+    · rw [h] at hps; cases hps
+    · rw [h] at hps
+      obtain ⟨a, b, c, _⟩ := inv.shown ps hps
+      exact ⟨a, b, c⟩
+  · have := prevHeight_prevFor e R k
+    omega
+
+theorem render_step (e : Env) (R : RState) (T : Term) (s : Screen) (m : Bool) (k sh : Nat)
+    (h1 : cw ' ' = 1) (hdef : (e.attrsOf 1).hasStyle = false)
+    (inv : RInv e R T) (ok : OpOk cw e R T (.render s m k sh)) :
+    RInv e (stepR cw e R T (.render s m k sh)).1 (stepR cw e R T (.render s m k sh)).2 ∧
+    Rendered e (stepR cw e R T (.render s m k sh)).2 s := by
+  obtain ⟨hn, wfs, hcx, hcy, hfit⟩ := ok
+  have dok := diffOk_of_inv cw e R T s false k h1 hdef inv hn wfs hfit (by simpa using hcy)
+  obtain ⟨rd, hpos, hlast⟩ := diff_correct cw e s R.pos (R.prevFor e k) R.lastStyle R.prevWidth T dok
+  have hsame := no_scroll cw e s R.pos (R.prevFor e k) R.lastStyle false R.prevWidth T dok
+  obtain ⟨a, b, ha, hb, hc⟩ := render_cmds e R s false m k sh
+  have hT : (stepR cw e R T (.render s m k sh)).2 =
+      exec cw T (diff e s R.pos (R.prevFor e k) R.lastStyle false R.prevWidth).cmds := by
+    simp only [stepR, hc, Bool.false_eq_true, if_false, List.append_nil]
+    rw [exec_append, exec_inert cw T a ha, exec_append, exec_inert cw _ b hb]
+  have hR : (stepR cw e R T (.render s m k sh)).1 =
+      R.rendered e s m k sh (diff e s R.pos (R.prevFor e k) R.lastStyle false R.prevWidth) := by
+    simp [stepR, RState.render]
+  rw [hT, hR]
+  simp only [RState.rendered]
+  refine ⟨⟨rd.w, inv.wpos, ?_, ?_, ?_, ?_, ?_, rd.sgr, hlast, ?_, ?_⟩, rd⟩
+  · simp only [hpos]; exact rd.row
+  · simp only [hpos]; rw [rd.col]; omega
+  · simp only [hpos]; exact hcx
+  · rw [rd.row, hsame.2.2.1]; exact hcy
+  · rw [hsame.2.2.1, hsame.2.2.2]; exact inv.tot
+  · intro hf _; rw [rd.autowrap, hf]; rfl
+  · intro ps hps
+    simp only [Option.some.injEq] at hps
+    subst hps
+    exact ⟨rd.shows, rd.nocont, wfs, rfl⟩
+
+theorem reset_state (R : RState) (sc la : Bool) :
+    (R.reset sc la).1.pos = ⟨0, 0⟩ ∧ (R.reset sc la).1.lastScreen = none ∧
+    (R.reset sc la).1.lastStyle = none := by
+  simp [RState.reset]
+
+theorem finish_step (e : Env) (R : RState) (T : Term) (s : Screen) (m : Bool) (k sh : Nat)
+    (h1 : cw ' ' = 1) (hdef : (e.attrsOf 1).hasStyle = false)
+    (inv : RInv e R T) (ok : OpOk cw e R T (.finish s m k sh)) :
+    RInv e (stepR cw e R T (.finish s m k sh)).1 (stepR cw e R T (.finish s m k sh)).2 ∧
+    (stepR cw e R T (.finish s m k sh)).2.visible = true ∧
+    (stepR cw e R T (.finish s m k sh)).2.autowrap = true ∧
+    (∀ y x, (stepR cw e R T (.finish s m k sh)).2.cells y x = TCell.blank) := by
+  obtain ⟨hn, wfs, hcy, hfit⟩ := ok
+  have dok := diffOk_of_inv cw e R T s true k h1 hdef inv hn wfs hfit (by simpa using hcy)
+  obtain ⟨_, d2, d3, d4, d5, d6⟩ := diff_done cw e s R.pos (R.prevFor e k) R.lastStyle R.prevWidth T dok
+  have hsame := no_scroll cw e s R.pos (R.prevFor e k) R.lastStyle true R.prevWidth T dok
+  have hw := (diff_master cw e s R.pos (R.prevFor e k) R.lastStyle true R.prevWidth T dok.space dok.hdef
+    dok.narrow dok.wf dok.pre dok.shown dok.fit dok.rows dok.tgt).1.2.2.2.2.1
+  obtain ⟨a, b, ha, hb, hc⟩ := render_cmds e R s true m k sh
+  have hT : (stepR cw e R T (.finish s m k sh)).2 =
+      ({ exec cw T (diff e s R.pos (R.prevFor e k) R.lastStyle true R.prevWidth).cmds with
+          visible := true } : Term).rebase := by
+    simp only [stepR, hc, if_true]
+    rw [exec_append, exec_inert cw T a ha, exec_append, exec_append, exec_inert cw _ b hb, exec_reset]
+  have hR : (stepR cw e R T (.finish s m k sh)).1 =
+      ((R.rendered e s m k sh (diff e s R.pos (R.prevFor e k) R.lastStyle true R.prevWidth)).reset
+        false true).1 := by
+    simp [stepR, RState.render]
+  rw [hT, hR]
+  generalize exec cw T (diff e s R.pos (R.prevFor e k) R.lastStyle true R.prevWidth).cmds = Td at *
+  generalize R.rendered e s m k sh (diff e s R.pos (R.prevFor e k) R.lastStyle true R.prevWidth) = R1 at *
+  obtain ⟨p1, p2, p3⟩ := reset_state R1 false true
+  refine ⟨⟨?_, inv.wpos, ?_, ?_, ?_, ?_, ?_, ?_, p3, ?_, ?_⟩, rfl, ?_, ?_⟩
+  · simpa [Term.rebase] using hw
+  · rw [p1]; rfl
+  · rw [p1]; simpa [Term.rebase] using d4
+  · rw [p1]; exact inv.wpos
+  · simp only [Term.rebase]; rw [d3, hsame.2.2.1]; omega
+  · simp only [Term.rebase]; rw [hsame.2.2.1, hsame.2.2.2, d3]; have := inv.tot; omega
+  · simpa [Term.rebase] using d5
+  · intro _ h; rw [p2] at h; cases h
+  · intro ps h; rw [p2] at h; cases h
+  · simpa [Term.rebase] using d6
+  · intro y x
+    simp only [Term.rebase]
+    rw [d3]
+    exact d2 _ _ (by omega)
+
+/-- what the calls of `Renderer.erase` do to a terminal that agrees with the renderer -/
+theorem exec_erase (e : Env) (R : RState) (T : Term) (la : Bool) (inv : RInv e R T) :
+    exec cw T (R.erase la).2 =
+      { T with row := 0, col := 0, sgr := Attrs.dflt, autowrap := true, visible := true,
+               cells := fun _ _ => TCell.blank } := by
+  simp only [RState.erase]
+  rw [exec_append, exec_reset]
+  simp only [exec_cons, exec_nil, execCmd]
+  rw [eraseFrom_eq _ _ (Or.inr (by simp [inv.col]))]
+  have hr : T.row - R.pos.y = 0 := by rw [inv.row]; omega
+  have hcl : T.col - R.pos.x = 0 := by rw [inv.col]; omega
+  have ho1 : ¬ T.col < R.pos.x := by rw [inv.col]; omega
+  have ho2 : ¬ T.row < R.pos.y := by rw [inv.row]; omega
+  simp only [hr, hcl, ho1, ho2, decide_false, Bool.or_false, inv.sgr, erased_dflt]
+  congr 1
+  funext y x
+  have : (y = 0 ∧ 0 ≤ x) ∨ (true = true ∧ 0 < y) := by
+    by_cases h : y = 0
+    · exact Or.inl ⟨h, Nat.zero_le _⟩
+    · exact Or.inr ⟨rfl, by omega⟩
+  simp [this]
+
+theorem erase_step (e : Env) (R : RState) (T : Term) (la : Bool) (inv : RInv e R T) :
+    RInv e (stepR cw e R T (.erase la)).1 (stepR cw e R T (.erase la)).2 ∧
+    (∀ y x, (stepR cw e R T (.erase la)).2.cells y x = TCell.blank) ∧
+    (stepR cw e R T (.erase la)).2.autowrap = true ∧
+    (stepR cw e R T (.erase la)).2.scrolled = T.scrolled ∧
+    (stepR cw e R T (.erase la)).2.oob = T.oob := by
+  obtain ⟨p1, p2, p3⟩ := reset_state R false la
+  have he : (stepR cw e R T (.erase la)).1 = (R.reset false la).1 := rfl
+  have hT : (stepR cw e R T (.erase la)).2 =
+      { T with row := 0, col := 0, sgr := Attrs.dflt, autowrap := true, visible := true,
+               cells := fun _ _ => TCell.blank } := exec_erase cw e R T la inv
+  rw [hT]
+  refine ⟨⟨inv.w, inv.wpos, ?_, ?_, ?_, ?_, inv.tot, rfl, ?_, ?_, ?_⟩, fun _ _ => rfl, rfl, rfl, rfl⟩
+  · rw [he, p1]
+  · rw [he, p1]
+  · rw [he, p1]; exact inv.wpos
+  · have := inv.rowlt; simp only; omega
+  · rw [he]; exact p3
+  · intro _ h; rw [he, p2] at h; cases h
+  · intro ps h; rw [he, p2] at h; cases h
+
+/-- `clear()`: the whole display is blank, the origin is the top of the terminal, the cursor is home -/
+theorem clear_step (e : Env) (R : RState) (T : Term) (inv : RInv e R T) :
+    RInv e (stepR cw e R T .clear).1 (stepR cw e R T .clear).2 ∧
+    (∀ y x, (stepR cw e R T .clear).2.cells y x = TCell.blank) ∧
+    (stepR cw e R T .clear).2.top = 0 ∧ (stepR cw e R T .clear).2.h = T.top + T.h := by
+  obtain ⟨p1, p2, p3⟩ := reset_state R false true
+  have he : (stepR cw e R T .clear).1 = (R.reset false true).1 := rfl
+  have hT : (stepR cw e R T .clear).2 =
+      { T with row := 0, col := 0, sgr := Attrs.dflt, autowrap := true, visible := true,
+               h := T.top + T.h, top := 0, cells := fun _ _ => TCell.blank } := by
+    simp only [stepR, RState.clear]
+    rw [exec_append, exec_erase cw e R T true inv]
+    simp only [exec_cons, exec_nil, execCmd, erased_dflt]
+    congr 1
+    · funext y x; split <;> rfl
+  rw [hT]
+  refine ⟨⟨inv.w, inv.wpos, ?_, ?_, ?_, ?_, ?_, rfl, ?_, ?_, ?_⟩, fun _ _ => rfl, rfl, rfl⟩
+  · rw [he, p1]
+  · rw [he, p1]
+  · rw [he, p1]; exact inv.wpos
+  · have := inv.rowlt; simp only; omega
+  · simp only; have := inv.tot; omega
+  · rw [he]; exact p3
+  · intro _ h; rw [he, p2] at h; cases h
+  · intro ps h; rw [he, p2] at h; cases h
+
+theorem stepR_inv (e : Env) (h1 : cw ' ' = 1) (hdef : (e.attrsOf 1).hasStyle = false)
+    (R : RState) (T : Term) (op : ROp) (inv : RInv e R T) (ok : OpOk cw e R T op) :
+    RInv e (stepR cw e R T op).1 (stepR cw e R T op).2 := by
+  cases op with
+  | render s m k sh => exact (render_step cw e R T s m k sh h1 hdef inv ok).1
+  | finish s m k sh => exact (finish_step cw e R T s m k sh h1 hdef inv ok).1
+  | erase la => exact (erase_step cw e R T la inv).1
+  | clear => exact (clear_step cw e R T inv).1
+
+/-- **render_seq** — the invariant "the terminal shows `_last_screen`, the cursor is at `_cursor_pos`,
+    attributes are reset" is carried over every finite sequence of renders, done-renders and erases. -/
+theorem render_seq (e : Env) (h1 : cw ' ' = 1) (hdef : (e.attrsOf 1).hasStyle = false) :
+    ∀ (ops : List ROp) (R : RState) (T : Term), RInv e R T → RunOk cw e R T ops →
+      RInv e (runR cw e R T ops).1 (runR cw e R T ops).2 := by
+  intro ops
+  induction ops with
+  | nil => intro R T inv _; exact inv
+  | cons op ops ih =>
+    intro R T inv ok
+    exact ih _ _ (stepR_inv cw e h1 hdef R T op inv ok.1) ok.2
+
+theorem runR_append (e : Env) : ∀ (a b : List ROp) (R : RState) (T : Term),
+    runR cw e R T (a ++ b) = runR cw e (runR cw e R T a).1 (runR cw e R T a).2 b := by
+  intro a
+  induction a with
+  | nil => intro b R T; rfl
+  | cons op a ih => intro b R T; exact ih b _ _
+
+theorem runOk_append (e : Env) : ∀ (a b : List ROp) (R : RState) (T : Term),
+    RunOk cw e R T (a ++ b) → RunOk cw e R T a ∧ RunOk cw e (runR cw e R T a).1 (runR cw e R T a).2 b := by
+  intro a
+  induction a with
+  | nil => intro b R T h; exact ⟨trivial, h⟩
+  | cons op a ih =>
+    intro b R T h
+    obtain ⟨h1, h2⟩ := h
+    obtain ⟨i1, i2⟩ := ih b _ _ h2
+    exact ⟨⟨h1, i1⟩, i2⟩
+
+/-- after any sequence of operations that ends with a render of `s`, the terminal shows `s`, the cursor
+    is on `s.cursor`, attributes are reset, the cursor is visible iff `s.showCursor` -/
+theorem render_seq_last (e : Env) (h1 : cw ' ' = 1) (hdef : (e.attrsOf 1).hasStyle = false)
+    (ops : List ROp) (R : RState) (T : Term) (s : Screen) (m : Bool) (k sh : Nat)
+    (inv : RInv e R T) (ok : RunOk cw e R T (ops ++ [.render s m k sh])) :
+    Rendered e (runR cw e R T (ops ++ [.render s m k sh])).2 s := by
+  obtain ⟨o1, o2⟩ := runOk_append cw e ops _ R T ok
+  have inv' := render_seq cw e h1 hdef ops R T inv o1
+  rw [runR_append]
+  exact (render_step cw e _ _ s m k sh h1 hdef inv' o2.1).2
+
+/-- **incremental_eq_scratch** — the terminal after any sequence of operations ending with a render of
+    `s` is visibly identical (cells of the owned rows, cursor position, cursor visibility, SGR state,
+    autowrap) to a terminal of the same geometry with arbitrary previous contents on which `s` is drawn
+    from scratch (first render: `previous_screen = None`, cursor on the origin). -/
+theorem incremental_eq_scratch (e : Env) (h1 : cw ' ' = 1) (hdef : (e.attrsOf 1).hasStyle = false)
+    (ops : List ROp) (R : RState) (T : Term) (s : Screen) (m : Bool) (k sh : Nat)
+    (inv : RInv e R T) (ok : RunOk cw e R T (ops ++ [.render s m k sh]))
+    (junk : Nat → Nat → TCell) :
+    (∀ y x, y < (runR cw e R T (ops ++ [.render s m k sh])).2.h → x < e.w →
+      ((runR cw e R T (ops ++ [.render s m k sh])).2.cells y x).norm =
+      ((exec cw (Term.fresh e.w (runR cw e R T (ops ++ [.render s m k sh])).2.h 0 junk)
+          (diff e s ⟨0, 0⟩ none none false 0).cmds).cells y x).norm) ∧
+    (runR cw e R T (ops ++ [.render s m k sh])).2.row =
+      (exec cw (Term.fresh e.w (runR cw e R T (ops ++ [.render s m k sh])).2.h 0 junk)
+          (diff e s ⟨0, 0⟩ none none false 0).cmds).row ∧
+    (runR cw e R T (ops ++ [.render s m k sh])).2.col =
+      (exec cw (Term.fresh e.w (runR cw e R T (ops ++ [.render s m k sh])).2.h 0 junk)
+          (diff e s ⟨0, 0⟩ none none false 0).cmds).col ∧
+    (runR cw e R T (ops ++ [.render s m k sh])).2.visible =
+      (exec cw (Term.fresh e.w (runR cw e R T (ops ++ [.render s m k sh])).2.h 0 junk)
+          (diff e s ⟨0, 0⟩ none none false 0).cmds).visible ∧
+    (runR cw e R T (ops ++ [.render s m k sh])).2.sgr =
+      (exec cw (Term.fresh e.w (runR cw e R T (ops ++ [.render s m k sh])).2.h 0 junk)
+          (diff e s ⟨0, 0⟩ none none false 0).cmds).sgr ∧
+    (runR cw e R T (ops ++ [.render s m k sh])).2.autowrap =
+      (exec cw (Term.fresh e.w (runR cw e R T (ops ++ [.render s m k sh])).2.h 0 junk)
+          (diff e s ⟨0, 0⟩ none none false 0).cmds).autowrap := by
+  have rd := render_seq_last cw e h1 hdef ops R T s m k sh inv ok
+  obtain ⟨o1, o2⟩ := runOk_append cw e ops _ R T ok
+  have inv' := render_seq cw e h1 hdef ops R T inv o1
+  have invF := render_seq cw e h1 hdef _ R T inv ok
+  obtain ⟨hn, wfs, hcx, hcy, hfit⟩ := o2.1
+  -- the geometry is not changed by the last render
+  have hh : (runR cw e R T (ops ++ [.render s m k sh])).2.h = (runR cw e R T ops).2.h := by
+    rw [runR_append]
+    have dok := diffOk_of_inv cw e _ _ s false k h1 hdef inv' hn wfs hfit (by simpa using hcy)
+    have hs := no_scroll cw e s _ _ _ false _ _ dok
+    obtain ⟨a, b, ha, hb, hc⟩ := render_cmds e (runR cw e R T ops).1 s false m k sh
+    show (exec cw _ ((runR cw e R T ops).1.render e s false m k sh).2).h = _
+    rw [hc]
+    simp only [Bool.false_eq_true, if_false, List.append_nil]
+    rw [exec_append, exec_inert cw _ a ha, exec_append, exec_inert cw _ b hb]
+    exact hs.2.2.1
+  generalize (runR cw e R T (ops ++ [.render s m k sh])).2 = Ti at *
+  have dok0 : DiffOk cw e s ⟨0, 0⟩ none none false 0 (Term.fresh e.w Ti.h 0 junk) := by
+    refine ⟨h1, hdef, hn, wfs, ⟨rfl, invF.wpos, rfl, by simp [Term.fresh], ?_, ?_, rfl⟩, ?_, ?_, ?_, ?_⟩
+    · have := invF.rowlt; simp only [Term.fresh]; omega
+    · intro _ h; cases h
+    · intro ps h; cases h
+    · simp only [Term.fresh, prevHeight]; rw [hh]
+      have : prevHeight (runR cw e R T ops).1.lastScreen ≥ 0 := Nat.zero_le _
+      omega
+    · simp only [Term.fresh]; have := invF.tot; omega
+    · simp only [Term.fresh, Bool.false_eq_true, if_false]; rw [hh]; exact hcy
+  obtain ⟨rs, _, _⟩ := diff_correct cw e s ⟨0, 0⟩ none none 0 _ dok0
+  have hsame := no_scroll cw e s ⟨0, 0⟩ none none false 0 _ dok0
+  refine ⟨?_, ?_, ?_, ?_, ?_, ?_⟩
+  · intro y x hy hx
+    rw [rd.shows y x hy hx, rs.shows y x (by rw [hsame.2.2.1]; exact hy) hx]
+  · rw [rd.row, rs.row]
+  · rw [rd.col, rs.col]
+  · rw [rd.visible, rs.visible]
+  · rw [rd.sgr, rs.sgr]
+  · rw [rd.autowrap, rs.autowrap]
+
+/-! ### non-vacuity: the hypotheses hold on concrete, non-trivial states -/
+
+section Examples
+
+/-- every character one column wide -/
+def cw1 : Char → Nat := fun _ => 1
+
+def exAttrs : Nat → Attrs := fun i =>
+  if i = 2 then { Attrs.dflt with bg := ['r', 'e', 'd'] } else Attrs.dflt
+
+/-- 3 columns, 3 rows, inline mode -/
+def exEnv : Env := ⟨3, 3, false, exAttrs⟩
+/-- `ab` on one row, cursor after it -/
+def exS1 : Screen := ⟨[[⟨['a'], 0, 1⟩, ⟨['b'], 0, 1⟩]], [], 1, ⟨2, 0⟩, true⟩
+/-- `a` / a red blank: the first row shrinks, a second row appears, the cursor moves down -/
+def exS2 : Screen := ⟨[[⟨['a'], 0, 1⟩], [⟨[' '], 2, 1⟩]], [], 2, ⟨1, 1⟩, false⟩
+/-- a terminal full of junk, cursor on the origin -/
+def exT0 : Term := Term.fresh 3 3 0 (fun _ _ => ⟨['#'], Attrs.dflt⟩)
+def exR0 : RState := RState.init.1
+
+def narrowB (c : Cell) : Bool :=
+  match c.txt with
+  | [k] => decide (32 ≤ k.toNat) && decide (k.toNat ≠ 127) && decide (c.width = 1)
+  | _ => false
+
+theorem narrow_of_check (s : Screen) (h : (s.rows.all fun r => r.all narrowB) = true) :
+    Narrow cw1 s := by
+  intro row hr c hc
+  have h1 := List.all_eq_true.mp h row hr
+  have h2 := List.all_eq_true.mp h1 c hc
+  unfold narrowB at h2
+  split at h2
+  · rename_i k hk
+    simp only [Bool.and_eq_true, decide_eq_true_eq] at h2
+    exact ⟨⟨k, hk, h2.1.1, h2.1.2, rfl⟩, h2.2⟩
+  · cases h2
+
+theorem exInv : RInv exEnv exR0 exT0 :=
+  ⟨rfl, by decide, rfl, rfl, by decide, by decide, by decide, rfl, rfl,
+   (fun h _ => by cases h), (fun ps h => by cases h)⟩
+
+def exOps : List ROp := [.render exS1 false 0 0, .render exS2 false 0 0]
+
+theorem exOk : RunOk cw1 exEnv exR0 exT0 (exOps ++ [.render exS1 false 0 0]) := by
+  refine ⟨⟨narrow_of_check _ (by decide), by unfold WF; decide, by decide, by decide, by decide⟩,
+    ⟨narrow_of_check _ (by decide), by unfold WF; decide, by decide, by decide, by decide⟩,
+    ⟨narrow_of_check _ (by decide), by unfold WF; decide, by decide, by decide, by decide⟩, trivial⟩
+
+/-- `render_seq` / `render_seq_last` / `diff_correct` are not vacuous: a first render on a junk
+    terminal, an incremental render that shrinks one row and adds another, and a third one -/
+example : Rendered exEnv (runR cw1 exEnv exR0 exT0 (exOps ++ [.render exS1 false 0 0])).2 exS1 :=
+  render_seq_last cw1 exEnv rfl rfl exOps exR0 exT0 exS1 false 0 0 exInv exOk
+
+/-- … and the model really computes what the theorem says: after the second render the red blank is
+    on row 1, the `b` of the first screen is gone, the junk is erased -/
+example : (runR cw1 exEnv exR0 exT0 exOps).2.cells 1 0 = ⟨[' '], exAttrs 2⟩ ∧
+    (runR cw1 exEnv exR0 exT0 exOps).2.cells 0 0 = ⟨['a'], Attrs.dflt⟩ ∧
+    (runR cw1 exEnv exR0 exT0 exOps).2.cells 0 1 = TCell.blank ∧
+    (runR cw1 exEnv exR0 exT0 exOps).2.cells 2 2 = TCell.blank ∧
+    (runR cw1 exEnv exR0 exT0 exOps).2.row = 1 ∧ (runR cw1 exEnv exR0 exT0 exOps).2.col = 1 ∧
+    (runR cw1 exEnv exR0 exT0 exOps).2.visible = false := by
+  decide
+
+/-- the second render is incremental (it does not erase the display) -/
+example : Cmd.eraseDown ∉ ((exR0.render exEnv exS1 false false 0 0).1.render exEnv exS2 false false 0 0).2 ∧
+    Cmd.eraseEol ∈ ((exR0.render exEnv exS1 false false 0 0).1.render exEnv exS2 false false 0 0).2 := by
+  decide
+
+/-- `finish_step` / `diff_done` are not vacuous: two renders and a done render (the output, 2 rows,
+    leaves a free line below it on the 3-row terminal) -/
+theorem exOkDone : RunOk cw1 exEnv exR0 exT0 (exOps ++ [.finish exS2 false 0 0]) := by
+  refine ⟨⟨narrow_of_check _ (by decide), by unfold WF; decide, by decide, by decide, by decide⟩,
+    ⟨narrow_of_check _ (by decide), by unfold WF; decide, by decide, by decide, by decide⟩,
+    ⟨narrow_of_check _ (by decide), by unfold WF; decide, by decide, by decide⟩, trivial⟩
+
+example : RInv exEnv (runR cw1 exEnv exR0 exT0 (exOps ++ [.finish exS2 false 0 0])).1
+    (runR cw1 exEnv exR0 exT0 (exOps ++ [.finish exS2 false 0 0])).2 :=
+  render_seq cw1 exEnv rfl rfl _ exR0 exT0 exInv exOkDone
+
+/-- after the done render the origin is the line below the output: one row is left, cursor on column 0 -/
+example : (runR cw1 exEnv exR0 exT0 (exOps ++ [.finish exS2 false 0 0])).2.h = 1 ∧
+    (runR cw1 exEnv exR0 exT0 (exOps ++ [.finish exS2 false 0 0])).2.top = 2 ∧
+    (runR cw1 exEnv exR0 exT0 (exOps ++ [.finish exS2 false 0 0])).2.col = 0 ∧
+    (runR cw1 exEnv exR0 exT0 (exOps ++ [.finish exS2 false 0 0])).2.autowrap = true ∧
+    (runR cw1 exEnv exR0 exT0 (exOps ++ [.finish exS2 false 0 0])).2.scrolled = 0 := by
+  decide
+
+/-- a screen as high as the terminal -/
+def exS3 : Screen := ⟨[[⟨['a'], 0, 1⟩], [], [⟨['c'], 0, 1⟩]], [], 3, ⟨0, 0⟩, true⟩
+
+/-- **the stated exception**: when the output fills the terminal, the `done` render's newline below the
+    last row scrolls the terminal by one line (hypothesis `tgt` of `diff_done` excludes exactly this) -/
+theorem done_full_height_scrolls :
+    (exec cw1 exT0 (diff exEnv exS3 ⟨0, 0⟩ none none true 0).cmds).scrolled = 1 ∧
+    (exec cw1 exT0 (diff exEnv exS3 ⟨0, 0⟩ none none false 0).cmds).scrolled = 0 := by
+  decide
+
+/-- a screen with a written row at `height` (not `WF`) -/
+def exBad : Screen := ⟨[[⟨['a'], 0, 1⟩], [⟨['z'], 0, 1⟩]], [], 1, ⟨0, 0⟩, true⟩
+def exBad2 : Screen := { exBad with height := 2 }
+
+/-- **`WF` is needed**: rows at or below `Screen.height` are not drawn by a from-scratch render but are
+    compared by the next incremental one; with `z` hidden below `height = 1` and then `height = 2`, the
+    incremental terminal lacks the `z` that the screen has (an artefact of ill-formed screens: layouts
+    never produce them) -/
+theorem wf_needed :
+    ((exec cw1 (exec cw1 exT0 (diff exEnv exBad ⟨0, 0⟩ none none false 0).cmds)
+        (diff exEnv exBad2 ⟨0, 0⟩ (some exBad) none false 3).cmds).cells 1 0).norm ≠
+      (tcellOf exEnv.attrsOf (cellAt (exBad2.row 1) 0)).norm := by
+  decide
+end Examples
 end Ptk.C06
